@@ -495,9 +495,88 @@ class Registry:
         self.groups = {}         # group name -> [qualname]
         self.lemmas = {}         # name -> callable(E) (solver-level lemma obligations)
 
+    def add_lemma(self, group, lemma):
+        self.lemmas[lemma.qualname] = lemma
+        self.groups.setdefault(group, []).append(lemma.qualname)
+        return lemma
+
     def add(self, group, contract):
         self.contracts[contract.qualname] = contract
         self.groups.setdefault(group, []).append(contract.qualname)
         for k, v in contract.loops.items():
             self.loops[(contract.target, k)] = v
         return contract
+
+
+class TableSummary:
+    """closed form of a module-level constant table, validated exhaustively against the table that the real
+    module builds (so a change to the table is seen) before it is used for a symbolic key.
+    entries(table) must enumerate every (key, value) of the real table and `closed(key)` give the same value;
+    lookup(E, key) returns the symbolic value, raising KeyError on the path where the key is outside the domain."""
+
+    def __init__(self, module, const, closed, domain, lookup):
+        self.module = module
+        self.const = const
+        self.closed = closed        # concrete key -> concrete value
+        self.domain = domain        # list of all keys the table must have
+        self.lookup_fn = lookup
+        self._table = None
+
+    def get_table(self, loader):
+        if self._table is None:
+            t = loader.load(self.module).ns.get(self.const)
+            if not isinstance(t, dict):
+                raise Unsupported("constant table %s.%s not found" % (self.module, self.const))
+            dom = list(self.domain)
+            if set(t.keys()) != set(dom) or any(t[k] != self.closed(k) for k in dom):
+                raise Unsupported("table summary of %s.%s does not hold for the current source" % (self.module, self.const))
+            self._table = t
+        return self._table
+
+    def lookup(self, E, key):
+        return self.lookup_fn(E, key)
+
+
+class Lemma:
+    """a solver-level lemma over contracts / spec functions: fn(E) assumes hypotheses and calls E.prove(...)"""
+
+    def __init__(self, name, props, fn, note=""):
+        self.qualname = name
+        self.props = tuple(props)
+        self.fn = fn
+        self.note = note
+
+    def run(self, loader, registry, timeout_ms=20000):
+        res = UnitResult(self.qualname)
+        res.props = self.props
+        res.source = "lemma"
+        t0 = time.time()
+        work = [[]]
+        while work:
+            dec = work.pop()
+            reset_oids()
+            E = Engine(loader, dec, contracts=registry.contracts, loops=dict(registry.loops), unit=None,
+                       timeout_ms=timeout_ms, tables=registry.tables)
+            E.path_id = "".join(str(d) for d in dec)
+            try:
+                self.fn(E)
+                res.paths += 1
+                res.outcomes += 1
+            except Fork as f:
+                for k in reversed(range(f.n)):
+                    work.append(dec + [k])
+                continue
+            except PathEnd:
+                res.paths += 1
+                res.infeasible += 1
+            except Unsupported as e:
+                res.demoted = str(e)
+                break
+            except Exception:
+                res.error = traceback.format_exc()
+                break
+            finally:
+                res.solver_seconds += E.solver_seconds
+            res.obligations.extend(E.obligations)
+        res.seconds = time.time() - t0
+        return res
